@@ -85,6 +85,8 @@ def category(why):
 def confirm_and_minimise(case, why, tier):
     P, inp, files = xcase.case_load(case)
     cat = category(why)
+    if cat == 'hang':
+        driver.TIMEOUT_SCALE = 10     # a timeout is confirmed with ten times the budget before it is believed
 
     def still(P2, inp2, files2):
         with driver.Scratch('c01m') as s:
